@@ -1,6 +1,7 @@
 package main
 
 import (
+	"go/types"
 	"golang.org/x/tools/go/ssa"
 )
 
@@ -51,6 +52,39 @@ func init() {
 			m.Entries = append(append([]mapEntry{}, m.Entries[:i]...), m.Entries[i+1:]...)
 		}
 		return nil
+	})
+	// sync.Pool: Put stores, Get hands back a stored object or (the pool may drop objects at any time) a new one: a
+	// free decision, so both behaviours are explored
+	reg("(*sync.Pool).Put", func(ex *Exec, fn *ssa.Function, args []Value, site string) Value {
+		p := args[0].(Ptr)
+		if ex.pools == nil {
+			ex.pools = map[*Value][]Value{}
+		}
+		if iv, ok := args[1].(Iface); ok && iv.T == nil {
+			return nil
+		}
+		ex.pools[p.C] = append(ex.pools[p.C], args[1])
+		return nil
+	})
+	reg("(*sync.Pool).Get", func(ex *Exec, fn *ssa.Function, args []Value, site string) Value {
+		p := args[0].(Ptr)
+		if items := ex.pools[p.C]; len(items) > 0 && ex.chooseFree(2) == 0 {
+			it := items[len(items)-1]
+			ex.pools[p.C] = items[:len(items)-1]
+			return it
+		}
+		st := fn.Signature.Recv().Type().(*types.Pointer).Elem().Underlying().(*types.Struct)
+		sv, _ := (*p.C).(Struct)
+		for i := 0; i < st.NumFields() && i < len(sv); i++ {
+			if st.Field(i).Name() == "New" {
+				if _, isNil := sv[i].(Iface); !isNil && sv[i] != nil {
+					if cl, ok := sv[i].(*Closure); !ok || cl != nil {
+						return ex.callValue(sv[i], nil, site)
+					}
+				}
+			}
+		}
+		return Iface{}
 	})
 	reg("(*sync.Once).Do", func(ex *Exec, fn *ssa.Function, args []Value, site string) Value {
 		p := args[0].(Ptr)
